@@ -470,6 +470,7 @@ func checkC31(w *World, r *Run) {
 	checkC31PerItem(w, r, ruleItem, sp)
 	checkC31ReadOnly(w, r, ruleRO)
 	checkC31Routes(w, r, ruleRoutes, e)
+	checkC31GuardRoles(w, r)
 	r.NotCovered("that a deny really leaves storage untouched below the storage interface (C03); that the versioned operation name is chosen exactly when a version id is passed; authorizer programs themselves")
 }
 
